@@ -4,6 +4,7 @@ The deciding monitor lives in the hook runtime (rt/verif_rt.c): kv_merge_end sna
 gap vectors of every completed guide-tree node; when kalign_run returns, every snapshot is compared
 with the projection of the final alignment onto the node's members."""
 import os
+import re
 
 from vf import common, fmt, gen, kal
 from vf.build import build
@@ -122,6 +123,88 @@ def run_case(ck, paths, idx, big, paths_huge=None):
         ck.sample({"kind": kind, "shape": shape, "n": len(recs), "type": word, "threads": nt, "nodes_checked": rr["snap_nodes"], "residues": rr["snap_residues"]})
 
 
+def run_exits(ck, paths, idx):
+    """The final alignment as it leaves the library: the rows kalign() returns and the rows the CLI writes must be the alignment held in the
+    (hook-monitored) msa after kalign_run. Inputs include fragments of long sequences, i.e. gap runs of several hundred columns."""
+    rng = ck.rng.__class__(ck.seed * 49979687 + idx)
+    kind = rng.choice(["dna", "protein"])
+    alpha = gen.DNA if kind == "dna" else gen.AA
+    if rng.random() < 0.6:
+        L = rng.choice([300, 520, 700, 1100])
+        seqs = gen.family(rng, rng.randint(3, 8), L, alpha, "random", 0.12, 0.01, 4)
+        for _ in range(rng.randint(1, 3)):
+            src = rng.choice(seqs)
+            fl = rng.randint(30, 110)
+            st = rng.choice([len(src) - fl, rng.randint(0, len(src) - fl), rng.randint(260, len(src) - fl) if len(src) - fl > 260 else 0])
+            seqs.append(src[max(0, st):max(0, st) + fl])
+        rng.shuffle(seqs)
+        shape = "fragments"
+    else:
+        seqs = gen.family(rng, rng.randint(3, 40), rng.randint(10, 300), alpha, "random", 0.2, 0.06, 12)
+        shape = "random"
+    if kind == "protein":
+        seqs = [s_ + "".join(rng.choice(gen.AA_ONLY) for _ in range(len(s_) // 3 + 1)) for s_ in seqs]
+    recs = [("Seq%d" % (i + 1), s_) for i, s_ in enumerate(seqs)]
+    word = rng.choice(kal.ADMISSIBLE[kind])
+    ty = kal.TYPES[word]
+    nt = rng.choice([1, 4, 16])
+    gp = rng.choice([(-1, -1, -1), (-1, -1, -1), (2.0, 1.0, 0.5), (30.0, 5.0, 2.0)])
+    pa = " ".join(common.fnum(v) for v in gp)
+    f = ck.tmp(".fa")
+    common.write_bytes(f, fmt.write_fasta(recs))
+    sf = ck.tmp(".seqs")
+    common.write_bytes(sf, "".join(s_ + "\n" for s_ in seqs))
+    log = ck.tmp(".log")
+    env = {"KV_SNAP": "1", "VERIF_SEED": str(ck.seed + idx)}
+    ctx = {"kind": kind, "shape": shape, "type": word, "idx": idx, "exits": True, "penalties": gp, "input": recs}
+    r, lrecs = common.kvdrv(paths, ["read 0 %s" % f, "run 0 %d %d %s" % (nt, ty, pa), "dump 0", "free 0", "arr %s %d %d %s" % (sf, nt, ty, pa)],
+                            env=env, scratch=ck.scratch, verif_log=log, timeout=900, cpu=600)
+    if ck.proc_violations(r, ctx, allow_rcs=(0,)):
+        return
+    d = next((x for x in lrecs if x.get("op") == "dump"), None)
+    a = next((x for x in lrecs if x.get("op") == "arr"), None)
+    if d is None or d.get("null") or a is None or a["rc"] != 0:
+        ck.violation("rejected-valid-input", "kalign_run / kalign() failed", ctx)
+        return
+    log_recs = common.read_jsonl(log) if os.path.exists(log) else []
+    runrec = [x for x in log_recs if x.get("rec") == "run"]
+    if len(runrec) != 2:
+        ck.note_inconclusive("exits: %d run records from the hook runtime" % len(runrec))
+        return
+    if any(x["c10_violations"] for x in runrec):
+        wit = [x for x in log_recs if x.get("rec") == "c10_witness"]
+        ck.violation("projection-differs", wit[0]["detail"] if wit else "snapshot differs from final projection", ctx)
+        return
+    rows = [x["seq"] for x in d["rows"]]
+    errs = fmt.check_alignment(recs, [(x["name"], x["seq"]) for x in d["rows"]], "msa")
+    if errs:
+        ck.violation("output-invalid", errs[0], ctx)
+        return
+
+    def first_split(other):
+        for i, (x, y) in enumerate(zip(rows, other)):
+            if x != y:
+                c = next((k for k in range(min(len(x), len(y))) if x[k] != y[k]), min(len(x), len(y)))
+                return "row %d differs from column %d on (monitored msa %r, delivered %r)" % (i, c, x[max(0, c - 5):c + 15], y[max(0, c - 5):c + 15])
+        return "row counts differ (%d / %d)" % (len(rows), len(other))
+
+    ck.count("exit_comparisons_array")
+    if a["rows"] != rows:
+        ck.violation("array-exit-differs-from-monitored-alignment", "kalign() returns rows in which sequences that were aligned in the msa are no longer column-consistent: " + first_split(a["rows"]), ctx)
+    res, crow = kal.cli_align(ck, paths, recs=recs, files=[f], word=word, gpo=gp[0] if gp[0] >= 0 else None, gpe=gp[1] if gp[1] >= 0 else None,
+                              tgpe=gp[2] if gp[2] >= 0 else None, nthreads=nt, ctx=ctx, format=rng.choice([None, "msf", "clu"]))
+    if crow is not None:
+        ck.count("exit_comparisons_cli")
+        if [s_ for _, s_ in crow] != rows:
+            ck.violation("cli-exit-differs-from-monitored-alignment", "the CLI writes a different alignment than kalign_run leaves in the msa: " + first_split([s_ for _, s_ in crow]), ctx)
+    longest_run = max((len(m_) for row in rows for m_ in re.findall(r"-+", row)), default=0)
+    ck.cmax("longest_gap_run_in_exit_comparisons", longest_run)
+    if longest_run > 256:
+        ck.count("exit_comparisons_with_gap_runs_over_256")
+    ck.evaluated(("exits", idx, len(recs), hash(tuple(recs)) & 0xffffff) if any("-" in x for x in rows) else None)
+    ck.count("nodes_checked", sum(x["snap_nodes"] for x in runrec))
+
+
 def run(ck, tier):
     paths = build("asan")
     sc = getattr(ck, "scale", 1.0)
@@ -129,10 +212,13 @@ def run(ck, tier):
     nhuge = 3 if tier == "quick" else 24
     rel = build("rel")
     jobs = [(200000 + i, "huge") for i in range(int(nhuge * sc))] + [(i, False) for i in range(int(nsmall * sc))] + [(100000 + i, True) for i in range(int(nbig * sc))]
-    common.pmap(lambda j: run_case(ck, paths, j[0], j[1], rel), jobs, workers=10)
+    nex = int((24 if tier == "quick" else 300) * sc)
+    jobs += [(300000 + i, "exits") for i in range(nex)]
+    common.pmap(lambda j: run_exits(ck, paths, j[0]) if j[1] == "exits" else run_case(ck, paths, j[0], j[1], rel), jobs, workers=10)
     ck.rule = ("families over balanced/caterpillar/star/random trees with 3..99 (UPGMA) and 100..600 (k-means) sequences, all types, default and user penalties, "
                "threads 1/4/16 with injected delays; for every internal guide-tree node the hook runtime snapshots the members' gap vectors at completion and, "
                "after kalign_run, checks rank_U(final column) == column at completion for every residue of every member and |U| == group length. "
+               "Exits: the rows returned by kalign() and written by the CLI are compared with the monitored msa (incl. fragments of long sequences, gap runs > 256). "
                "Non-trivial = a run whose output contains gaps and that checked >= 2 nodes.")
     ck.assumptions = ["snapshot taken in kv_merge_end inside do_align (after make_seq and the sip/nsip update), under the runtime mutex"]
 
@@ -140,6 +226,9 @@ def run(ck, tier):
 def replay(ck, doc):
     paths = build("asan")
     rp = doc["replay"]
-    run_case(ck, paths, rp["idx"], rp.get("big", False), build("rel"))
+    if rp.get("exits"):
+        run_exits(ck, paths, rp["idx"])
+    else:
+        run_case(ck, paths, rp["idx"], rp.get("big", False), build("rel"))
     with ck.lock:
         ck.nontrivial |= set(range(30))
